@@ -470,7 +470,91 @@ def escaped_through_lookup(r):
 
 
 
-FAMILIES = {"padded_refs": padded_refs, "escaped_through_lookup": escaped_through_lookup, "ref_layer_self_lookup": ref_layer_self_lookup, "colon_selectors": colon_selectors, "same_value_layers": same_value_layers, "sibling_fullpath_refs": sibling_fullpath_refs,
+def wide_layer_lookup(r):
+    """A reference with two or more segments into a parameter defined by several mapping layers of which one is WIDE
+    (9-70 entries) and writes the looked-up key with a marker (~key, =key) or plainly, next to narrower layers that also
+    define it: what the reference yields must be what the parameter itself renders to at that path."""
+    n = r.choice([9, 10, 16, 17, 33, 64, 65, 70])
+    filler = {"f%02d" % i: r.choice([i, "v%d" % i, [i]]) for i in range(n)}
+    kind = r.choice(["list", "map", "list_scalar", "scalar"])
+    old = {"list": ["a", "b"], "map": {"port": 1, "host": "h"}, "list_scalar": ["a", "b"], "scalar": 1}[kind]
+    new = {"list": ["c"], "map": {"port": 2}, "list_scalar": "plain", "scalar": 2}[kind]
+    marker = r.choice(["~", "~", "=", ""])
+    nested = r.chance(1, 3)
+    first = {"key": old, "other": 0}
+    if r.chance(1, 2):
+        first.update({"g%02d" % i: i for i in range(r.choice([0, 9, 40]))})
+    wide = dict(filler)
+    items = list(wide.items())
+    pos = r.below(len(items) + 1)
+    items[pos:pos] = [(marker + "key", new)]
+    wide = dict(items)
+    def wrap(v):
+        return {"top": {"parent": v}} if nested else {"parent": v}
+    pfx = "top:parent" if nested else "parent"
+    layers = [wrap(first), wrap(wide)]
+    if r.chance(1, 3):
+        layers.append(wrap({"key": r.choice([["z"], {"extra": 1}, "late"]), "more": 1}))
+    uses = {"view": "${%s:key}" % pfx, "emb": "x${%s:key}y" % pfx}
+    if kind == "map":
+        uses["deep"] = "${%s:key:port}" % pfx
+    if r.chance(1, 2):
+        uses["sel"] = "key"
+        uses["via"] = "${%s:${sel}}" % pfx
+    layers.append(uses)
+    return G.P(*layers)["layers"]
+
+
+def embedded_through_layers(r):
+    """An EMBEDDED reference (text around it, or nested inside another reference's path) with two or more segments whose
+    non-final segment is a parameter defined in several layers and whose target -- a list or mapping defined in one of
+    the layers only, or a string -- itself holds references or escaped markers: the text must be that of the fully rendered
+    value."""
+    inner = r.choice([["web.${domain}", "db.${domain}"], {"primary": "${domain}", "n": ["${port}"]}, "h.${domain}", ["\\${lit}", "${domain}"],
+                      "rate(errors\\$[5m]) > 0", "plain"])
+    l1 = {"hosts": inner, "name": "app"} if r.chance(1, 2) else {"name": "app"}
+    l2 = {"replicas": 2}
+    if "hosts" not in l1:
+        l2["hosts"] = inner
+    nested = r.chance(1, 3)
+    def wrap(v):
+        return {"svc": {"app": v}} if nested else {"app": v}
+    pfx = "svc:app" if nested else "app"
+    layers = [dict(wrap(l1), domain="example.com", port=80), wrap(l2)]
+    if r.chance(1, 2):
+        layers = [layers[1], layers[0]]
+    if r.chance(1, 3):
+        # not layered at all: a plain mapping reached by a literal path
+        layers = [dict(wrap(dict(l1, **l2)), domain="example.com", port=80)]
+    uses = {"cmd": "run --hosts=${%s:hosts}" % pfx}
+    if r.chance(1, 2):
+        uses["msg"] = "firing on ${%s:hosts}!" % pfx
+    if r.chance(1, 3):
+        uses["index"] = {"plain": "found", "h.example.com": "found2"}
+        uses["sel"] = "${index:${%s:hosts}}" % pfx
+    if r.chance(1, 3):
+        uses["whole"] = "${%s:hosts}" % pfx
+    layers.append(uses)
+    return G.P(*layers)["layers"]
+
+
+def dangling_then_reset(r):
+    """A layer holds a reference to a path that does not exist (or a cycle, or a parse error) and a LATER layer replaces
+    the parameter by null or overrides it: every layer is still interpolated, so the error is reported."""
+    bad = r.choice(["${no:such}", "${missing}", "x${missing}", "${", "${selfk}", ["${missing}"], {"a": "${no:such}"}])
+    nested = r.chance(1, 3)
+    def wrap(v):
+        return {"outer": {"selfk": v}} if nested else {"selfk": v}
+    later = r.choice([None, None, "fine", {"a": 1}, [1]])
+    layers = [wrap(r.choice([1, {"a": 0}, bad])), wrap(bad), wrap(later)]
+    if r.chance(1, 2):
+        layers.append(wrap(r.choice([{"b": 2}, "after", None])))
+    if r.chance(1, 2):
+        layers.append({"use": "${outer:selfk}" if nested else "${selfk}", "use2": "${outer:selfk:a}" if nested else "${selfk:a}"})
+    return G.P(*layers)["layers"]
+
+
+FAMILIES = {"wide_layer_lookup": wide_layer_lookup, "embedded_through_layers": embedded_through_layers, "dangling_then_reset": dangling_then_reset, "padded_refs": padded_refs, "escaped_through_lookup": escaped_through_lookup, "ref_layer_self_lookup": ref_layer_self_lookup, "colon_selectors": colon_selectors, "same_value_layers": same_value_layers, "sibling_fullpath_refs": sibling_fullpath_refs,
             "dup_in_one_mapping": dup_in_one_mapping, "odd_keys": odd_keys, "null_const": lambda r: null_const(r), "empty_segments": empty_segments, "override_through_path": override_through_path, "empty_const": empty_const,
             "deep_ref_layers": deep_ref_layers, "repeated_layers": repeated_layers, "escapes_in_containers": escapes_in_containers,
             "both_flags": both_flags}
